@@ -534,6 +534,56 @@ def gaussian_case(kind):
     return Case(cname, body, goals, family="gaussian", params=dict(kind=kind), max_paths=24, max_forks_per_site=4)
 
 
+def gaussian_rows_case(kind):
+    """Gaussian sampler asked with two parameter rows: each row's point is an accepted proposal of its OWN -- two
+    different proposals (rows of the normal draws) are returned, each paired with its parameter row"""
+    cname = "gaussian_rows/%s/k2" % kind
+
+    def body(env):
+        sh = SH.PRIMS[kind](env)
+        L = env.L
+        env.assume(sh.oset.positive({}, L))
+        dim = sum(d for _, d in sh.space_vars)
+        mean, std = env.tensor("gm", (dim,)), env.tensor("gs", ())
+        env.assume(L.gt(SH.elems(env, std)[0], 0))
+        P, rows = SH.params(env, [("q", 1)], 2)
+        s = tp.samplers.GaussianSampler(sh.dom, n_points=1, mean=mean, std=std)
+        out = dict(sh=sh, rows=rows, dim=dim)
+        n0 = len(env.ctx.rand_calls) if env.symbolic else 0
+        pts = s.sample_points(P)
+        out["p"] = pts.as_tensor
+        out["names"] = list(pts.space.keys())
+        if env.symbolic:
+            from symtorch.harness import _zr
+            out["draws"] = [[_zr(v) for v in c[2]] for c in env.ctx.rand_calls[n0:] if c[0] == "g"]
+        return out
+
+    def goals(o, L, env):
+        sh, d = o["sh"], o["dim"]
+        yield "two_rows", len(o["p"]) == 2 and o["names"][-1] == "q"
+        if len(o["p"]) != 2:
+            return
+        for i, row in enumerate(o["p"]):
+            yield "inside_domain[row%d]" % i, sh.oset.closure(row[:d], {}, L, 0)
+            yield "paired_with_its_parameter_row[row%d]" % i, L.eq(row[d], o["rows"][i]["q"][0])
+        if not L.symbolic:
+            # replay: the two points differ (they are different proposals of a continuous law)
+            yield "rows_are_different_proposals", not all(abs(a - b) < 1e-12 for a, b in zip(o["p"][0][:d], o["p"][1][:d]))
+            return
+        props = []
+        for dr in o["draws"]:
+            for r in range(len(dr) // d):
+                props.append(dr[r * d:(r + 1) * d])
+        opts = []
+        for i1, a in enumerate(props):
+            for i2, b in enumerate(props):
+                if i1 != i2:
+                    opts.append(L.And(*([L.eq(o["p"][0][c], a[c]) for c in range(d)] + [L.eq(o["p"][1][c], b[c]) for c in range(d)])))
+        yield "rows_are_different_proposals", L.Or(*opts) if opts else False
+
+    return Case(cname, body, goals, family="gaussian_rows", params=dict(kind=kind), max_paths=40, max_forks_per_site=4)
+
+
 def lhs_case(n, dim):
     cname = "lhs/n%d/d%d" % (n, dim)
 
@@ -653,6 +703,7 @@ def cases(tier):
             cs.append(lattice_case(kind, n))
     for kind in ("Interval", "Circle") + (() if quick else ("Parallelogram",)):
         cs.append(gaussian_case(kind))
+    cs.append(gaussian_rows_case("Interval"))
     cs.append(lhs_case(2, 1))
     cs.append(lhs_case(2, 2))
     if not quick:
